@@ -66,6 +66,9 @@ private:
   BindingEnv* env_;
   ManifestParserOptions options_;
   bool quiet_;
+  /// How many include/subninja statements lead from the top-level manifest
+  /// to the file this parser reads.
+  int include_depth_ = 0;
 
   // ins_/out_/validations_ are reused across invocations to ParseEdge(),
   // to save on the otherwise constant memory reallocation.
